@@ -35,12 +35,15 @@ def zoo(rng, n):
         V = np.c_[P, np.zeros(len(P))] @ M.T * 0.25 + t
         if np.linalg.norm(np.cross(V[2] - V[1], V[0] - V[1])) > 0:
             out.append(("Polygon", S.Polygon(V)))
+            # ... and with an explicit normal opposing the vertex order (listed clockwise about its normal): the normal is part of the shape
+            out.append(("Polygon", S.Polygon(V, normal=-np.cross(V[2] - V[1], V[0] - V[1]))))
         _, Pc = gen.simple_polygon(rng, kind="convex")
         if rng.random() < 0.5:
             Pc = Pc[::-1].copy()
         Vc = np.c_[Pc, np.zeros(len(Pc))] + np.array([t[0], t[1], 0.0])
         if np.linalg.norm(np.cross(Vc[2] - Vc[1], Vc[0] - Vc[1])) > 0:
             out.append(("ConvexPolygon", S.ConvexPolygon(Vc)))
+            out.append(("ConvexPolygon", S.ConvexPolygon(Vc, normal=np.array([0.0, 0.0, -1.0]))))
             # rounding radius 0 is a legitimate spheropolygon (the setter allows it): it must round-trip as one
             out.append(("ConvexSpheropolygon", S.ConvexSpheropolygon(Vc, 0.0 if rng.random() < 0.25 else float(2.0 ** rng.integers(-3, 2)))))
         _, W = gen.convex_set(rng, kinds=("ellipsoid", "lattice", "prismatic"))
